@@ -75,6 +75,7 @@ def eval_graph(c, sub):
     deltas = c.get('deltas', [0, 1, 2, 3])
     path_types = c.get('path_types', PATH_TYPES)
     Gs = {L: build_labelled(c, sub, L) for L in labellings}
+    allR = {}
     perms = [[1, 0] + list(range(2, n)), list(range(1, n)) + [0]]
     for start in starts:
         for delta in deltas:
@@ -88,6 +89,7 @@ def eval_graph(c, sub):
                 reach[u] = any(p[-1][1] != u for p in bp)
             for pt in path_types:
                 R = {}
+                allR.setdefault((start, delta), {})[pt] = R
                 for L in labellings:
                     cnt['queries'] += 1
                     try:
@@ -161,7 +163,11 @@ def eval_graph(c, sub):
                                                                 'node': repr(u), 'alpha': a, 'score': s, 'score_after_renaming': sp, 'start': start, 'delta': delta}))
     # sliding == pointwise
     mixed = [L for L in labellings if len(set(L)) > 1][:2] + [labellings[0]]
-    for L in ([] if c.get('focus') else mixed):
+    # how often the path type matters at all (vacuity guard for the quantifier "all five path types")
+    for (st, de), bypt in allR.items():
+        if 'shortest' in bypt and 'fastest' in bypt and any(repr(bypt['shortest'].get(L)) != repr(bypt['fastest'].get(L)) for L in labellings):
+            cnt['queries_where_fastest_differs_from_shortest'] += 1
+    for L in ([] if c.get('focus') and not c.get('sliding') else mixed):
         for delta in deltas:
             for pt in PATH_TYPES:
                 cnt['queries'] += 1
@@ -198,6 +204,19 @@ def eval_graph(c, sub):
     return viols[:6], cnt
 
 
+# Two routes from node 0 to node 3: a two-hop one whose middle node has to wait (it stays active through contacts with 5) and a
+# three-hop one that is faster; plus variations.  Every subset is enumerated: the family in which 'shortest', 'fastest' and the
+# combined criteria select different paths, so that the path-type argument is observable (also through sliding_delta_conformity).
+TWO_ROUTES = [(0, 1, 0), (1, 5, 1), (1, 5, 2), (1, 3, 3), (0, 2, 1), (2, 4, 2), (3, 4, 3), (3, 5, 4), (0, 1, 1), (2, 4, 1), (1, 3, 2), (0, 2, 0), (3, 4, 2)]
+
+
+def two_routes(m, **kw):
+    c = graphs.gconf('DynGraph', 0, 6, 5, m)
+    c.update({'template': TWO_ROUTES[:m], 'focus': True, 'sliding': True, 'labs': 3})
+    c.update(kw)
+    return c
+
+
 def confs(tier, seed):
     if tier == 'quick':
         c = graphs.gconf('DynGraph', 0, 3, 3, 4)
@@ -215,7 +234,8 @@ def confs(tier, seed):
         # node first met far away and later reached by a shortcut, i.e. depth in time rather than width
         c6 = graphs.gconf('DynGraph', 0, 5, 5, 5)
         c6.update({'seq': True, 'focus': True, 'deltas': [4], 'path_types': ['shortest'], 'starts_n': 1, 'labs': 2})
-        return [c, c2, c3, c4, c5, c6]
+        c7 = two_routes(10, deltas=[3], path_types=PATH_TYPES, starts_n=1, labs=2)
+        return [c, c2, c3, c4, c5, c6, c7]
     out = []
     for fl in (0, 1):
         out.append(graphs.gconf('DynGraph', fl, 3, 3, 9))
@@ -231,6 +251,7 @@ def confs(tier, seed):
     c6 = graphs.gconf('DynGraph', 0, 5, 5, 5)
     c6.update({'seq': True, 'focus': True, 'deltas': [3, 4], 'path_types': PATH_TYPES, 'labs': 3})
     out.append(c6)
+    out.append(two_routes(13, deltas=[2, 3], path_types=PATH_TYPES))
     return out
 
 
@@ -246,7 +267,7 @@ def run(tier, seed):
               'result': repr(al.delta_conformity(G, graphs.universe(c0)[1][0], 2, ALPHAS, ['lab']))[:400]}
     return pathbase.run(
         PROP, LEVEL, eval_graph, tier, seed, cfs, nontrivial_key='nontrivial_graphs',
-        vacuity={'nonzero_scores': 1000, 'sliding_nonempty': 100}, samples=[sample],
+        vacuity={'nonzero_scores': 1000, 'sliding_nonempty': 100, 'queries_where_fastest_differs_from_shortest': 4}, samples=[sample],
         assumptions=['scores are compared at absolute tolerance 1e-9', 'static categorical labels, one label attribute, no hierarchies',
                      'tqdm progress output of the two algorithm modules is replaced by a pass-through'],
         rule='every labelled undirected temporal graph of the universes in per_universe (all subsets of pairs x T up to k timed interactions x '
